@@ -61,7 +61,7 @@ func TypedNames(node interface{}) []string {
 		case len(x) == 33 && (x[0] == 2 || x[0] == 3):
 			return []string{"point-negated", "point-generator", "point-identity-encoding", "point-random", "from-transcript", "bitflip"}
 		case len(x) == 32:
-			return []string{"scalar-zero", "scalar-one", "scalar-minus-one", "plus-one", "random", "from-transcript", "bitflip"}
+			return []string{"scalar-zero", "scalar-one", "scalar-minus-one", "scalar-negated", "plus-one", "random", "from-transcript", "bitflip"}
 		case len(x) == 64:
 			return []string{"zero", "random", "from-transcript", "bitflip"}
 		case len(x) >= 100:
@@ -128,6 +128,13 @@ func ApplyTyped(node interface{}, name string, pool *Pool, r *vk.Rand) (interfac
 		case "scalar-minus-one":
 			out = make([]byte, 32)
 			new(big.Int).Sub(ref.Q, big.NewInt(1)).FillBytes(out)
+		case "scalar-negated":
+			v := new(big.Int).SetBytes(x)
+			if v.Sign() == 0 || v.Cmp(ref.Q) >= 0 {
+				return nil, false
+			}
+			out = make([]byte, 32)
+			new(big.Int).Sub(ref.Q, v).FillBytes(out)
 		case "plus-one":
 			out = addBig(x, 1)
 		case "minus-one":
